@@ -23,6 +23,7 @@ import (
 	"github.com/lindb/lindb/metrics"
 	"github.com/lindb/lindb/models"
 	"github.com/lindb/lindb/pkg/compress"
+	"github.com/lindb/lindb/pkg/verifhook"
 	"github.com/lindb/lindb/series/metric"
 	"github.com/lindb/lindb/tsdb"
 )
@@ -103,6 +104,7 @@ func (r *localReplicator) Replica(sequence int64, msg []byte) {
 		}
 
 		// after write need commit sequence, drop write failure data.
+		verifhook.Yield("replica.local.beforeCommitSequence")
 		r.family.CommitSequence(r.leader, sequence)
 	}()
 
